@@ -11,6 +11,7 @@ package PVM
 import (
 	"bytes"
 	"fmt"
+	"hash/fnv"
 	"runtime"
 	"sort"
 	"syscall"
@@ -222,7 +223,7 @@ var c06ZeroPage = make([]byte, ZP)
 func c06Run(r *vlib.Run, c c06Case) {
 	var blob []byte
 	switch c.Fam {
-	case "size":
+	case "size", "reentry":
 		blob = c06Blob(c.O, c.W, c.Z, c.S, -1, -1, -1, c06Code, 0)
 	default:
 		switch c.Kind {
@@ -246,6 +247,9 @@ func c06Run(r *vlib.Run, c c06Case) {
 	var regs Registers
 	var mem Memory
 	var er ExitReason
+	if c06Pre != nil {
+		c06Pre()
+	}
 	pnk, msg, site := vlib.Guard(func() {
 		code, regs, mem, er = SingleInitializer(append([]byte(nil), blob...), append([]byte(nil), arg...))
 	})
@@ -262,9 +266,10 @@ func c06Run(r *vlib.Run, c c06Case) {
 		oLenDecl = c06LE(blob[:3])
 	}
 	shape := fmt.Sprintf("o=%s w=%s z=%s s=%s a=%s", c06SizeClass(uint64(c.O)), c06SizeClass(uint64(c.W)), c06SizeClass(c.Z*c06ZP), c06SizeClass(c.S), c06SizeClass(uint64(c.A)))
-	if c.Fam != "size" {
+	if c.Fam == "malformed" {
 		shape = "malformed:" + c.Kind
 	}
+	shape = c06ClassPrefix + shape
 	if pnk {
 		r.Class(shape + " go-panic")
 		r.Violation(site, "go-panic", shape, fmt.Sprintf("case %+v: %s", c, msg), c)
@@ -298,7 +303,7 @@ func c06Run(r *vlib.Run, c c06Case) {
 	}
 	r.Class(shape + " ok")
 	bad := func(kind, key, detail string) {
-		r.Violation("SingleInitializer", kind, key, fmt.Sprintf("|o|=%d |w|=%d z=%d s=%d |a|=%d: %s", c.O, c.W, c.Z, c.S, c.A, detail), c)
+		r.Violation("SingleInitializer", kind, key+c06KeySuffix, fmt.Sprintf("|o|=%d |w|=%d z=%d s=%d |a|=%d: %s", c.O, c.W, c.Z, c.S, c.A, detail), c)
 	}
 	if !bytes.Equal(code, ref.code) {
 		bad("wrong-code", "c", fmt.Sprintf("returned %d code bytes, expected %d", len(code), len(ref.code)))
@@ -390,8 +395,156 @@ func c06Run(r *vlib.Run, c c06Case) {
 	if mem.heapLimit > ref.stackLo || mem.heapPointer > mem.heapLimit {
 		bad("heap-window-overlaps-stack", "heap", fmt.Sprintf("pointer %#x limit %#x stack starts %#x", mem.heapPointer, mem.heapLimit, ref.stackLo))
 	}
+	if c06WantDigest {
+		h := fnv.New64a()
+		for _, k := range keys {
+			p := mem.Pages[k]
+			if p == nil || p.Access == MemoryInaccessible {
+				continue
+			}
+			fmt.Fprintf(h, "%d:%d:", k, p.Access)
+			h.Write(p.Value)
+		}
+		fmt.Fprintf(h, "regs%v hp%d hl%d", regs, mem.heapPointer, mem.heapLimit)
+		c06LastDigest = h.Sum64()
+	}
 	if r.WantSample() && c.Fam == "size" && c.O == 4097 && c.A == 1 {
 		r.Sample(map[string]interface{}{"case": c, "pages": len(mem.Pages), "heap_pointer": mem.heapPointer, "heap_limit": mem.heapLimit})
+	}
+}
+
+// ---- re-entry: hidden process-level state between invocations -----------------------------------
+
+var (
+	c06Pre         func() // run immediately before SingleInitializer in c06Run
+	c06KeySuffix   string
+	c06ClassPrefix string
+	c06WantDigest  bool
+	c06LastDigest  uint64
+)
+
+func c06Prog(instrs ...[]byte) []byte {
+	var code []byte
+	var starts []int
+	for _, in := range instrs {
+		starts = append(starts, len(code))
+		code = append(code, in...)
+	}
+	mask := make([]byte, (len(code)+7)/8)
+	for _, st := range starts {
+		mask[st/8] |= 1 << (uint(st) % 8)
+	}
+	out := append([]byte{0, 0, byte(len(code))}, code...)
+	return append(out, mask...)
+}
+
+func c06StdBlob(o, w []byte, z, s uint64, code []byte) []byte {
+	le := func(v uint64, n int) []byte {
+		b := make([]byte, n)
+		for i := range b {
+			b[i] = byte(v >> (8 * uint(i)))
+		}
+		return b
+	}
+	out := append([]byte(nil), le(uint64(len(o)), 3)...)
+	out = append(out, le(uint64(len(w)), 3)...)
+	out = append(out, le(z, 2)...)
+	out = append(out, le(s, 3)...)
+	out = append(out, o...)
+	out = append(out, w...)
+	out = append(out, le(uint64(len(code)), 4)...)
+	return append(out, code...)
+}
+
+var c06DirtyBlob, c06DirtyArg []byte
+
+// c06Dirty runs one complete, unrelated invocation through Psi_M: a program whose read-only data,
+// read-write data, heap page, stack pages and argument are full of 0xBB and which halts.
+func c06Dirty(r *vlib.Run) {
+	if c06DirtyBlob == nil {
+		bb := bytes.Repeat([]byte{0xBB}, 8192)
+		prog := c06Prog(
+			[]byte{70, 0x11, 0xF8, 0xBB},                // store_imm_ind_u8 [r1-8] = 0xBB      (stack, last page)
+			[]byte{70, 0x21, 0xF8, 0xEF, 0xBB},          // store_imm_ind_u8 [r1-4104] = 0xBB   (stack, first page)
+			[]byte{30, 4, 0x00, 0x20, 0x03, 0x00, 0xBB}, // store_imm_u8 [0x32000] = 0xBB (heap page)
+			[]byte{50, 0}, // jump_ind r0 -> halt, returns the argument
+		)
+		c06DirtyBlob = c06StdBlob(bb, bb, 1, 8192, prog)
+		c06DirtyArg = bb
+	}
+	var res Psi_M_ReturnType
+	pnk, msg, site := vlib.Guard(func() {
+		res = Psi_M(append([]byte(nil), c06DirtyBlob...), 0, 1000, append([]byte(nil), c06DirtyArg...), IsAuthorizedOmegas, HostCallArgs{})
+	})
+	r.Transition()
+	if pnk {
+		r.T.Fatalf("c06: the filler invocation panicked: %s (%s)", msg, site)
+	}
+	if out, ok := res.ReasonOrBytes.([]byte); !ok || len(out) != 8192 || out[0] != 0xBB {
+		r.T.Fatalf("c06: the filler invocation did not halt with its argument: %v", res.ReasonOrBytes)
+	}
+}
+
+// c06RunReentry: the init case (a) fresh, (b) again after an unrelated complete invocation, through
+// SingleInitializer; both must equal R-Y and each other; then (c) through Psi_M itself: a probe
+// program returns the last (partial) page of o, w and the argument, again after an unrelated invocation.
+func c06RunReentry(r *vlib.Run, c c06Case) {
+	c06WantDigest = true
+	c06ClassPrefix = "reentry-first "
+	c06Run(r, c)
+	first := c06LastDigest
+	n0 := r.NViolations()
+	c06Pre = func() { c06Dirty(r) }
+	c06KeySuffix = ";after-earlier-invocation"
+	c06ClassPrefix = "reentry-again "
+	c06Run(r, c)
+	again := c06LastDigest
+	c06Pre, c06KeySuffix, c06ClassPrefix, c06WantDigest = nil, "", "", false
+	if first != again && r.NViolations() == n0 {
+		r.Violation("SingleInitializer", "same-input-different-page-map", "after-earlier-invocation",
+			fmt.Sprintf("|o|=%d |w|=%d z=%d s=%d |a|=%d: page map digest %#x, after an unrelated invocation %#x", c.O, c.W, c.Z, c.S, c.A, first, again), c)
+	}
+	// (c) through Psi_M
+	o, w, arg := c06Data(0, c.O), c06Data(1, c.W), c06Data(2, c.A)
+	ref := c06Ref(c06StdBlob(o, w, c.Z, c.S, c06Code), arg)
+	for _, sg := range ref.segs {
+		if len(sg.content) == 0 {
+			continue
+		}
+		off := uint64(len(sg.content)-1) / c06ZP * c06ZP
+		addr := sg.start + off
+		le8 := make([]byte, 8)
+		for i := range le8 {
+			le8[i] = byte(addr >> (8 * uint(i)))
+		}
+		probe := c06Prog(append([]byte{20, 7}, le8...), []byte{51, 8, 0x00, 0x10}, []byte{50, 0})
+		blob := c06StdBlob(o, w, c.Z, c.S, probe)
+		c06Dirty(r)
+		var res Psi_M_ReturnType
+		pnk, msg, site := vlib.Guard(func() {
+			res = Psi_M(append([]byte(nil), blob...), 0, 100, append([]byte(nil), arg...), IsAuthorizedOmegas, HostCallArgs{})
+		})
+		r.Transition()
+		if pnk {
+			r.Violation(site, "go-panic", "reentry-probe", msg, c)
+			continue
+		}
+		got, ok := res.ReasonOrBytes.([]byte)
+		want := make([]byte, c06ZP)
+		copy(want, sg.content[off:])
+		r.Class(fmt.Sprintf("reentry-psi_m zone=%s readable=%v", sg.zone, ok && len(got) == int(c06ZP)))
+		switch {
+		case !ok || len(got) != int(c06ZP):
+			r.Violation("Psi_M", "initialised-page-not-readable", "zone="+sg.zone+";after-earlier-invocation",
+				fmt.Sprintf("|o|=%d |w|=%d z=%d s=%d |a|=%d: probe of page %#x returned %v", c.O, c.W, c.Z, c.S, c.A, addr, res.ReasonOrBytes), c)
+		case !bytes.Equal(got, want):
+			i := 0
+			for got[i] == want[i] {
+				i++
+			}
+			r.Violation("Psi_M", "wrong-content", "zone="+sg.zone+";after-earlier-invocation",
+				fmt.Sprintf("|o|=%d |w|=%d z=%d s=%d |a|=%d: guest-visible byte %#x = %#02x, GP map has %#02x (after an unrelated complete invocation)", c.O, c.W, c.Z, c.S, c.A, addr+uint64(i), got[i], want[i]), c)
+		}
 	}
 }
 
@@ -403,7 +556,11 @@ func TestVerif_C06(t *testing.T) {
 
 	var rc c06Case
 	if r.IsReplay(&rc) {
-		c06Run(r, rc)
+		if rc.Fam == "reentry" {
+			c06RunReentry(r, rc)
+		} else {
+			c06Run(r, rc)
+		}
 		return
 	}
 	th := r.Thorough()
@@ -453,6 +610,23 @@ func TestVerif_C06(t *testing.T) {
 			}
 			r.Space(1)
 			c06Run(r, c)
+		}
+	}
+	// re-entry lattice: every zone with a partial last page, run after an unrelated invocation
+	for _, o := range []int{1, 4095, 4097} {
+		for _, w := range []int{1, 4095, 4097} {
+			for _, a := range []int{1, 4095, 4097} {
+				for _, z := range []uint64{0, 1} {
+					for _, s := range []uint64{0, 4096} {
+						idx++
+						if !r.Mine(idx) {
+							continue
+						}
+						r.Space(1)
+						c06RunReentry(r, c06Case{Fam: "reentry", O: o, W: w, Z: z, S: s, A: a})
+					}
+				}
+			}
 		}
 	}
 	// size lattice
